@@ -2,6 +2,7 @@ package main
 
 import (
 	"fmt"
+	"io/fs"
 	"regexp"
 	"strings"
 
@@ -26,6 +27,9 @@ var mtimeAny = regexp.MustCompile(`:m(-|-?\d+)`)
 
 func normRes(s string) string {
 	s = mtimeAny.ReplaceAllString(s, ":m_") // modification times are not among the attributes C01 compares
+	if s == "err fileclosing" {
+		s = "err closed" // both are the closed-file error kind
+	}
 	f := strings.Fields(s)
 	if len(f) >= 3 && f[0] == "ok" && (f[1] == "i" || f[1] == "l") {
 		var out []string
@@ -67,6 +71,9 @@ func runBoth(h lib.History) (lib.History, []string, []string) {
 		if len(f) >= 3 && (f[2] == "mkdirtemp") && strings.HasPrefix(a, "ok b") && strings.HasPrefix(b, "ok b") {
 			a, b = "ok b ~", "ok b ~" // random names differ by construction
 		}
+		if agree(l, a, b) {
+			b = a
+		}
 		lines, ri, ro = append(lines, l), append(ri, a), append(ro, b)
 		if a != b || m.dead {
 			break
@@ -83,6 +90,16 @@ func runBoth(h lib.History) (lib.History, []string, []string) {
 		}
 	}
 	return lines, ri, ro
+}
+
+// agree: equal results, or both fail on a closed handle (C02 asks for a closed-file error on every call on a
+// closed handle; os.File itself reports a negative offset first in ReadAt/WriteAt).
+func agree(line, a, b string) bool {
+	if a == b {
+		return true
+	}
+	f := strings.Fields(line)
+	return len(f) > 4 && f[2] == "file" && a == "err closed" && strings.HasPrefix(b, "err ")
 }
 
 func corrKernel(seed uint64, tier string, replay []string, prop string, opts fsGenOpts, salt uint64) *lib.Result {
@@ -132,6 +149,9 @@ func corrKernel(seed uint64, tier string, replay []string, prop string, opts fsG
 				}
 				kind, key := fsKey(l, a)
 				st.Count(kind, key+fmt.Sprintf("|%d", i/16))
+				if agree(l, a, b) {
+					b = a
+				}
 				h, ri, ro = append(h, l), append(ri, a), append(ro, b)
 				if a != b || m.dead {
 					break
@@ -182,10 +202,78 @@ func trunc(s string) string {
 	return s
 }
 
-// kernelClass names the divergence class of a disagreement (matched against the ledger by bin/check).
+// situation describes an operand in the implementation's state before the call.
+func situation(m *fsImpl, p string) string {
+	vfs := m.views[0]
+	if p == "/" {
+		return "root"
+	}
+	li, err := vfs.Lstat(p)
+	if err != nil {
+		par := p
+		if i := strings.LastIndex(p, "/"); i >= 0 {
+			par = p[:i]
+			if par == "" {
+				par = "/"
+			}
+		}
+		pi, perr := vfs.Stat(par)
+		switch {
+		case perr != nil:
+			return "missing-parent:" + errName(err)
+		case !pi.IsDir():
+			return "below-nondir"
+		}
+		return "missing"
+	}
+	switch {
+	case li.IsDir():
+		return "dir"
+	case li.Mode()&fs.ModeSymlink != 0:
+		si, serr := vfs.Stat(p)
+		switch {
+		case serr != nil:
+			return "link-" + errName(serr)
+		case si.IsDir():
+			return "link-dir"
+		}
+		return "link-file"
+	}
+	return "file"
+}
+
+// kernelClass names the divergence class of a disagreement (matched against the ledger by bin/check): the call,
+// the situation of its path operands in the state before the call, and the two outcomes.
 func kernelClass(l lib.History, a, b []string, d int) string {
 	f := strings.Fields(l[d])
 	op := f[2]
+	sit := ""
+	if op != "snap" && op != "file" {
+		// replay the prefix on a fresh implementation to look at the operands
+		m := newFsImpl()
+		for _, pl := range l[:d] {
+			pf := strings.Fields(pl)
+			if len(pf) >= 3 && pf[2] != "snap" {
+				m.call(pl)
+			}
+		}
+		var sits []string
+		for i, x := range f[3:] {
+			if i >= 2 {
+				break
+			}
+			if strings.HasPrefix(x, "2f") || x == "-" {
+				if (op == "symlink" && i == 0) || (op == "writefile" && i == 1) || ((op == "mkdirtemp" || op == "createtemp") && i == 1) {
+					continue
+				}
+				sits = append(sits, situation(m, lib.UnHex(x)))
+			}
+		}
+		sit = "(" + strings.Join(sits, ",") + ")"
+		if op == "openfile" && len(f) > 4 {
+			sit += "flag" + f[4] + rdonlyPlus(f[4])
+		}
+	}
 	if op == "snap" && d > 0 {
 		pf := strings.Fields(l[d-1])
 		pop := pf[2]
@@ -196,6 +284,44 @@ func kernelClass(l lib.History, a, b []string, d int) string {
 	}
 	if op == "file" && len(f) > 4 {
 		op = "file." + f[4]
+		if (f[4] == "read" || f[4] == "readat") && len(f) > 5 && f[5] == "0" {
+			op += "(len0)"
+		}
+		if (f[4] == "write" || f[4] == "writeat") && len(f) > 5 && f[5] == "-" {
+			op += "(len0)"
+		}
+		// the flags the handle was opened with
+		hid := f[3]
+		n := 0
+		for _, pl := range l[:d] {
+			pf := strings.Fields(pl)
+			if len(pf) >= 3 && (pf[2] == "openfile" || pf[2] == "create" || pf[2] == "createtemp") && strings.HasPrefix(a[indexOf(l, pl)], "ok h") {
+				if fmt.Sprint(n) == hid {
+					if pf[2] == "openfile" {
+						op += "flag" + pf[4] + rdonlyPlus(pf[4])
+					}
+				}
+				n++
+			}
+		}
 	}
-	return "kernel." + op + "." + lib.OutcomeClass(a[d]) + "-vs-" + lib.OutcomeClass(b[d])
+	return "kernel." + op + sit + "." + lib.OutcomeClass(a[d]) + "-vs-" + lib.OutcomeClass(b[d])
+}
+
+func indexOf(l lib.History, x string) int {
+	for i, y := range l {
+		if y == x {
+			return i
+		}
+	}
+	return 0
+}
+
+// rdonlyPlus marks open flags whose access mode is O_RDONLY combined with O_CREATE/O_EXCL/O_TRUNC/O_APPEND.
+func rdonlyPlus(flag string) string {
+	n := atoiS(flag)
+	if n&3 == 0 && n != 0 {
+		return "[rdonly+]"
+	}
+	return ""
 }
